@@ -1,6 +1,8 @@
 import RsslVerif.Lemmas.SlotsInline
 import RsslVerif.Lemmas.FixpointStmt
 import RsslVerif.Gen.FixpointTables
+import RsslVerif.Lemmas.FixpointText
+import RsslVerif.Thm.C09
 /-!
 # C04 — emitted DirectX HLSL is accepted by the front end and is a fixpoint
 
@@ -178,5 +180,158 @@ theorem reelab_fails_out_argument :
      | _ => false) = true := by decide
 
 end Reelab
+
+/-! ## The composition: the second generation is the first (C01 exporter model ∘ C09 ∘ C03 elaboration)
+
+`e : Ir.Expr` is a first-generation expression of the C01 subset (constants with their values), `i = erase e` its
+skeleton in the C03 model, `a = genExpr cx e` the tree the exporter model of C01 generates for it (names from the
+`NameMap`).  The second generation is obtained by printing `a`, parsing the text, resolving names, elaborating, and
+exporting again.  Each arrow is a theorem of one layer; the hypotheses that connect them are named. -/
+section Fixpoint
+open RsslVerif.Gen.RankTable RsslVerif.Gen.TypingTables
+open RsslVerif.Model RsslVerif.Model.Conv RsslVerif.Model.Overload RsslVerif.Model.IrTyping RsslVerif.Model.Elab
+open RsslVerif.Model.Fixpoint RsslVerif.Model.FixpointBridge RsslVerif.Model.GenHlsl
+open RsslVerif.Lemmas.FixpointBridge RsslVerif.Lemmas.FixpointText RsslVerif.Lemmas.Roundtrip RsslVerif.Spec.Roundtrip
+
+/-- **bridge_square.**  The exporter model of C01 and the exporter shadow `Unelab` are the same exporter: for every
+    expression of the C01 subset with a C03 counterpart, the tree `GenHlsl.genExpr` generates, read back by the front
+    end (`readBack`: `parse_literal`, name lookup, operator and type names), is one of the trees `Unelab` describes.
+    `NamesAgree` is name hygiene (C15): an emitted name is looked up to the entity it was emitted for. -/
+theorem bridge_square {Γ' : Env} {nm : Names} {cx : Ctx} {ix : Idx} (hA : NamesAgree cx ix nm Γ') {e : Ir.Expr}
+    {i : IExpr} {a : HlslAst.Expr} (he : erase ix e = some i) (hg : genExpr cx e = .ok a) :
+    ∃ s, readBack nm a = some s ∧ Unelab Γ' i s := genExpr_back hA e i a he hg
+
+/-- an expression of the subset is its skeleton plus its constants (positions name entities uniquely) -/
+theorem skeleton_and_constants {ix : Idx} (hI : IdxInj ix) {e e2 : Ir.Expr} {i : IExpr} (h1 : erase ix e = some i)
+    (h2 : erase ix e2 = some i) (hl : leaves e = leaves e2) : e = e2 := erase_inj hI e e2 i h1 h2 hl
+
+/-- the C09 leg for one exported tree: the printed tokens, in front of anything that ends an expression, are read by
+    the parser as exactly the tree that was printed -/
+def ParsesBack (a : HlslAst.Expr) : Prop :=
+  ∃ t, toFmt a = some t ∧ ∀ rest, RsslVerif.Thm.C09.Stops rest → ReadsBack t rest
+
+/-- discharged by C09's `roundtrip_expr_partial` for every exported tree in the fragment of its model (no cast; every
+    literal prints as one token reading back as itself: non-negative, floats in the dyadic subset) -/
+theorem parsesBack_of_c09 {a : HlslAst.Expr} {t : Format.Expr} (h : toFmt a = some t) (hwf : WF t) : ParsesBack a :=
+  ⟨t, h, fun rest hr => RsslVerif.Thm.C09.roundtrip_expr_partial t hwf rest hr⟩
+
+/-- **fixpoint_expr.**  First generation: `s` (source) elaborates to the skeleton `i : τ` of `e`, `e` exports to `a`.
+    Then
+    1. *(front end accepts, no new conversions)* the tree `a`, read back by the front end, elaborates in the exported
+       environment — debug or release build — to `i : τ` again: same casts, same overloads, same operator types, same
+       literal kinds (`bridge_square` ∘ `reelab_no_new_casts`);
+    2. *(second generation = first)* every second-generation expression `e2` with that skeleton whose constants are
+       those of `e` **is** `e`, so it exports to the same tree `a` — and therefore prints the same text.
+
+    Named hypotheses and where they come from:
+    * `hA : NamesAgree` — name hygiene, C15 (`verbatim`, `never_reserved`, `injective_per_scope`): the emitted names
+      are looked up to the same entities; `hR : Renamed` — every exported function has its own name (same theorems);
+    * `hlit : leaves e2 = leaves e` (in 2.) — literal exactness: the constants of the second generation are those of
+      the first, i.e. each printed literal is re-read with its value (C10 `lex_float_nearest`, `int_value_exact`, C01
+      `literal_value_preserved`) and re-tagged to its kind with that value; checked value by value by the `C04.reelab`
+      oracle on the real compiler;
+    * `hs`, `hp` — as in `reelab_no_new_casts`.
+    The text leg (print ∘ parse = id on `a`) is `ParsesBack a`, see `fixpoint_expr_text`. -/
+theorem fixpoint_expr {Γ Γ' : Env} (hR : Renamed Γ Γ') {nm : Names} {cx : Ctx} {ix : Idx}
+    (hA : NamesAgree cx ix nm Γ') (hI : IdxInj ix) (dbg dbg' : Bool) {s : SExpr} {i : IExpr} {τ : ETy}
+    (hs : SrcOk s) (hel : elabE dbg Γ s = .ok (i, τ)) (hp : OutArgsPlain Γ i)
+    {e : Ir.Expr} (he : erase ix e = some i) {a : HlslAst.Expr} (hg : genExpr cx e = .ok a) :
+    (∃ s', readBack nm a = some s' ∧ elabE dbg' Γ' s' = .ok (i, τ)) ∧
+    (∀ e2, erase ix e2 = some i → leaves e2 = leaves e → e2 = e ∧ genExpr cx e2 = .ok a) := by
+  refine ⟨?_, ?_⟩
+  · obtain ⟨s', hrb, hu⟩ := bridge_square hA he hg
+    exact ⟨s', hrb, reelab_no_new_casts hR dbg dbg' hs hel hp hu⟩
+  · intro e2 he2 hlit
+    have : e2 = e := skeleton_and_constants hI he2 he hlit
+    subst this
+    exact ⟨rfl, hg⟩
+
+/-- **fixpoint_expr_text.**  With the C09 leg: the text printed for the first generation is read by the parser as the
+    exported tree (so the front end sees `a`), and the text printed for the second generation — the print of the
+    export of any `e2` as in `fixpoint_expr` — is byte for byte the text printed for the first. -/
+theorem fixpoint_expr_text {cx : Ctx} {ix : Idx} (hI : IdxInj ix) {e : Ir.Expr} {i : IExpr} {a : HlslAst.Expr}
+    (he : erase ix e = some i) (hg : genExpr cx e = .ok a) (hparse : ParsesBack a) :
+    ∃ t, toFmt a = some t ∧ (∀ rest, RsslVerif.Thm.C09.Stops rest → ReadsBack t rest) ∧
+      ∀ e2 a2 t2, erase ix e2 = some i → leaves e2 = leaves e → genExpr cx e2 = .ok a2 → toFmt a2 = some t2 →
+        Format.render (Format.fmtExpr t2) = Format.render (Format.fmtExpr t) := by
+  obtain ⟨t, ht, hrb⟩ := hparse
+  refine ⟨t, ht, hrb, ?_⟩
+  intro e2 a2 t2 he2 hlit hg2 ht2
+  have : e2 = e := skeleton_and_constants hI he2 he hlit
+  subst this
+  rw [hg] at hg2
+  cases hg2
+  rw [ht] at ht2
+  cases ht2
+  rfl
+
+/-! ### non-vacuity: `a = b + 3` with `int a, b` -/
+
+def cxEx : Ctx where
+  locName n := match n with | 0 => "a" | 1 => "b" | _ => "v"
+  globName _ := "g"
+  funcName _ := "f"
+  vty _ := .int
+
+def ixEx : Idx where
+  var v := match v with | .loc 0 => some 0 | .loc 1 => some 1 | _ => none
+  func _ := none
+
+def nmEx : Names where
+  res n := if n = "a" then some 0 else if n = "b" then some 1 else none
+  fres _ := none
+
+def ΓInt : Env := { vars := [⟨{}, .scalar .int32⟩, ⟨{}, .scalar .int32⟩], funcs := [] }
+
+/-- `Assignment(a, Add(b, Int32 3))` -/
+def eEx : Ir.Expr :=
+  .op .Assignment (.cons (.var 0) (.cons (.op .Add (.cons (.var 1) (.cons (.lit (.int32 3)) .nil))) .nil))
+
+def aEx : HlslAst.Expr := .bin .Assignment (.ident "a") (.bin .Add (.ident "b") (.lit (.intUntyped 3)))
+
+theorem namesAgreeEx : NamesAgree cxEx ixEx nmEx ΓInt where
+  loc id j h := by
+    match id, h with
+    | 0, h => simp [ixEx] at h; subst h; rfl
+    | 1, h => simp [ixEx] at h; subst h; rfl
+    | n + 2, h => simp [ixEx] at h
+  glob id j h := by simp [ixEx] at h
+  func f j h := by simp [ixEx] at h
+
+theorem idxInjEx : IdxInj ixEx where
+  var v w j hv hw := by
+    match v, w, hv, hw with
+    | .loc 0, .loc 0, _, _ => rfl
+    | .loc 1, .loc 1, _, _ => rfl
+    | .loc 0, .loc 1, hv, hw => simp [ixEx] at hv hw; omega
+    | .loc 1, .loc 0, hv, hw => simp [ixEx] at hv hw; omega
+    | .loc (n + 2), _, hv, _ => simp [ixEx] at hv
+    | _, .loc (n + 2), _, hw => simp [ixEx] at hw
+    | .glob _, _, hv, _ => simp [ixEx] at hv
+    | _, .glob _, _, hw => simp [ixEx] at hw
+  func f g j hf _ := by simp [ixEx] at hf
+
+/-- all hypotheses of `fixpoint_expr` and `fixpoint_expr_text` hold for the example: the text `a = b + 3` is parsed
+    back to the exported tree, re-elaborated to the first-generation skeleton (the literal re-tagged to `Int32`
+    again), and any second generation with the constant `3` prints `a = b + 3` again -/
+example :
+    (∃ s', readBack nmEx aEx = some s' ∧
+      elabE true ΓInt s' = elabE true ΓInt (.bin .assignment (.var 0) (.bin .add (.var 1) (.lit .intLiteral)))) ∧
+    ParsesBack aEx := by
+  have hR : Renamed ΓInt ΓInt :=
+    ⟨rfl, rfl, fun f sg h => by simp [ΓInt] at h, fun f g sf sg h => by simp [ΓInt] at h⟩
+  have hel : ∃ i τ, elabE true ΓInt (.bin .assignment (.var 0) (.bin .add (.var 1) (.lit .intLiteral))) = .ok (i, τ) ∧
+      erase ixEx eEx = some i ∧ OutArgsPlain ΓInt i := by
+    refine ⟨_, _, rfl, rfl, ?_⟩
+    simp [OutArgsPlain, OutArgsPlainArgs]
+  obtain ⟨i, τ, h1, h2, h3⟩ := hel
+  have hg : genExpr cxEx eEx = .ok aEx := by rfl
+  obtain ⟨⟨s', hrb, hs'⟩, _⟩ := fixpoint_expr hR namesAgreeEx idxInjEx true true
+    (by simp [SrcOk]; decide) h1 h3 h2 hg
+  refine ⟨⟨s', hrb, by rw [hs', h1]⟩, ?_⟩
+  exact parsesBack_of_c09 (t := .bin .Assignment (.id "a") (.bin .Add (.id "b") (.lit ⟨.IntUntyped, false, 3⟩))) rfl
+    (by simp [WF]; decide)
+
+end Fixpoint
 
 end RsslVerif.Thm.C04
